@@ -384,7 +384,9 @@ func (o *OracleC14) Judge(w *World, b *BlockCtx, p *ProbeResult) {
 			l := new(big.Int).Mul(y.buy, x.sell)
 			r := new(big.Int).Mul(x.buy, y.sell)
 			diff := new(big.Int).Abs(new(big.Int).Sub(l, r))
-			if new(big.Int).Mul(diff, big.NewInt(1e15)).Cmp(r) > 0 {
+			// ... or within one unit of either remaining amount (dust-sized orders)
+			unit := new(big.Int).Add(x.sell, x.buy)
+			if new(big.Int).Mul(diff, big.NewInt(1e15)).Cmp(r) > 0 && diff.Cmp(unit) > 0 {
 				w.Report("C14", "orders", "price-changed", fmt.Sprintf("height %d: order %d was %s for %s, after a partial fill it is %s for %s", p.Height, id, x.sell, x.buy, y.sell, y.buy), p.Height)
 				return
 			}
@@ -617,8 +619,10 @@ func init() {
 			p.W[k] = 10
 		}
 		p.W["addorder"], p.W["remorder"] = 6, 3
+		p.W["dustorder"], p.W["fillorder"] = 2, 4
 		if orders {
 			p.W["addorder"], p.W["remorder"] = 25, 8
+			p.W["dustorder"], p.W["fillorder"] = 6, 14
 		}
 		p.PGasCustom = 0.3
 		p.PDup, p.PGarbage, p.PBadNonce, p.PBadSig = 0, 0, 0.01, 0.01
